@@ -42,6 +42,48 @@ theorem otherwise_store_unchanged (c : Nat) (hist : List In) (i : In)
     obtain ⟨a, hp, hi, _⟩ := save_requires_proof c hist i n k hs
     exact absurd ⟨a, n, k, hp, hi⟩ h
 
+/-- What an answer gives away. The accessory's own proof H(A | M1 | K) depends on the setup code; whoever holds it can try
+    codes offline until one explains it. It is sent in exactly one kind of answer: the one that ACCEPTS the controller's
+    proof (state 4, no error) — from every state, for every message: an answer that carries an error, and every answer to
+    anything else, carries no proof. (Seeded change C02-r5m1 returned it together with the error.) -/
+theorem accessory_proof_only_in_accepting_answer (c : Nat) (st : St) (i : In) (state : Nat) (err : Option Nat) (hk he : Bool)
+    (h : (step true c st i).2.1 = .tlv state err hk true he) :
+    state = 4 ∧ err = none ∧ ∃ a p, i = .m3 (.good a) p ∧ proofOk true c st a p = true := by
+  cases i with
+  | malformedTlv => simp [step, stepR] at h
+  | badMethod => simp [step, stepR] at h
+  | badState n => simp [step, stepR] at h
+  | m1 => simp only [step, stepR] at h; split at h <;> simp at h
+  | m3 A p =>
+    simp only [step, stepR] at h
+    split at h
+    · simp at h
+    · cases A with
+      | bad n => simp at h
+      | good a =>
+        simp only at h
+        split at h
+        · rename_i hp
+          simp at h
+          exact ⟨h.1.symm, h.2.1.symm, a, p, rfl, hp⟩
+        · simp at h
+  | m5 d =>
+    simp only [step, stepR] at h
+    split at h
+    · simp at h
+    · cases d with
+      | short n => simp at h
+      | sealed k no it pt =>
+        simp only at h
+        split at h
+        · simp at h
+        · simp at h
+        · split at h
+          · simp at h
+          · split at h
+            · split at h <;> simp at h
+            · simp at h
+
 /-- completeness (the honest exchange does store): after `m1`, an accepted proof and the matching key exchange,
     the pair is saved — so the two theorems above are not vacuous. -/
 theorem honest_exchange_saves (c a name key : Nat) (hn : name ≠ ownName) :
